@@ -138,6 +138,11 @@ func (k *StorageKey) AddChild(child *StorageKey) (*StorageKey, error) {
 		return child, nil
 	}
 
+	if existing.typeId != child.typeId {
+		// same slot and offset but a different type: a distinct key
+		return child, nil
+	}
+
 	return existing, nil
 }
 
